@@ -112,6 +112,8 @@ structure Setting (u : List Blk) (src : Chain) : Prop where
   linked : Linked src
   nonempty : src ≠ []
   ok : ∀ b ∈ src, b.ok = true
+  /-- honest: every block claims the root its history of diffs produces -/
+  roots : RootsOK src
   sub : ∀ b ∈ src, b ∈ u
   bound : src.length < U64
 
@@ -143,11 +145,11 @@ theorem linked_cons_facts {b : Blk} {c : Chain} (h : Linked (b :: c)) :
   | nil => exact h
   | cons H T => exact ⟨h.1, h.2.1⟩
 
-theorem succession_of_linked {b : Blk} {c : Chain} (h : Linked (b :: c)) :
+theorem succession_of_linked {b : Blk} {c : Chain} (h : Linked (b :: c)) (hr : RootsOK (b :: c)) :
     succession c b = .stored := by
   obtain ⟨h1, h2⟩ := linked_cons_facts h
   rw [succession_def]
-  simp [h1, h2]
+  simp [h1, h2, hr.1]
 
 /-- Phase B: the node's chain is a proper prefix of the source's: the round stores the next block. -/
 theorem round_extend {cfg : Cfg} {u : List Blk} {src : Chain} (S : Setting u src) {n : Node}
@@ -161,7 +163,7 @@ theorem round_extend {cfg : Cfg} {u : List Blk} {src : Chain} (S : Setting u src
     rw [← hnum]; exact S.linked.byNumber_mem hbm
   refine ⟨b, hb, ?_⟩
   unfold round
-  simp only [hlook, S.ok b hbm, succession_of_linked hlb, onStored]
+  simp only [hlook, S.ok b hbm, succession_of_linked hlb (S.roots.suffix hb), onStored]
   simp
 
 /-- Phase C: the chains are equal: nothing happens. -/
